@@ -83,6 +83,10 @@ CONFIGS = {
     'm_pkgpath_only': {'paths': [], 'package_path': ('pkg', 'pkg'), 'm': [r'^pkg\.']},
     'm_neg_pkgpath_only': {'paths': [], 'package_path': ('pkg', 'pkg'), 'm': [r'!^pkg\.tests$']},
     's_pkg': {'s': 'pkg'},
+    # overlapping --package filters under ONE search path
+    's_pkg_inner': {'s': ['pkg', 'pkg.inner']},
+    's_inner_pkg': {'s': ['pkg.inner', 'pkg']},
+    's_pkg_twice': {'s': ['pkg', 'pkg']},
     'ignore_pkg': {'ignore_dir': 'pkg'},
 }
 
@@ -104,6 +108,8 @@ def cases(tier, seed):
                 if ('pkg' in str(CONFIGS[cfg].get('paths', '')) or 's' in CONFIGS[cfg]
                         or 'package_path' in CONFIGS[cfg]) and 'p' not in kinds:
                     continue
+                if 'inner' in str(CONFIGS[cfg].get('s', '')) and 'p:4' not in names:
+                    continue          # only p:4 has the package pkg.inner
                 for od in orders:
                     yield [list(combo), cfg, od]
 
@@ -195,7 +201,8 @@ def reference(files, root, cfg, links_first=False):
             yield from walk(sd)
     starts = search
     if c.get('s'):
-        starts = [(os.path.join(root, c['s']), '')]
+        ss = c['s'] if isinstance(c['s'], list) else [c['s']]
+        starts = [(os.path.join(root, *x.split('.')), '') for x in ss]
     prefixes = sorted(((p + os.sep, pk) for p, pk in search), key=lambda x: -len(x[0]))
     out = []
     seen = set()
@@ -237,7 +244,8 @@ def argv_for(root, cfg):
     for m in c.get('m', []):
         argv += ['-m', m]
     if c.get('s'):
-        argv += ['-s', c['s']]
+        for x in (c['s'] if isinstance(c['s'], list) else [c['s']]):
+            argv += ['-s', x]
     if c.get('ignore_dir'):
         argv += ['--ignore_dir', c['ignore_dir']]
     return argv + ['--list-tests']
